@@ -3,15 +3,20 @@ C18 — Unknown extension content never alters standard content.
 
 Proved in E57/Proofs/Foreign.lean on the tree-level reader model (E57/Model/Xml.lean, MetaRead.lean):
  * `C18_foreign_invisible`      for documents whose roots are related by any number of insertions of
-       foreign-namespace elements (whole subtree foreign, any local names, any position except directly
-       inside a `prototype` and never directly in front of a leaf's text) and foreign attributes:
+       foreign-namespace elements (whole subtree foreign, any local names, ANY position among the children of
+       any element — in front of, behind or in the middle of a leaf's text included — except directly
+       inside a `prototype`), comments, processing instructions and foreign attributes:
        root metadata, all point clouds and all images read identically — for every float-parse table
+ * `textOf_insert_nontext`, `textOf_split_text`   the reason: `xml::text_of` concatenates ALL text pieces of
+       a leaf (the crate used roxmltree's `text()`, first child only, before the repair)
  * `C18_foreign_invisible_ext`  … and the extension list, when the namespace declarations agree
  * `Reader_open_foreign`, `points_and_blobs_unchanged`   the opened reader is equal, hence points and blobs
  * `recordNameOf_foreign`, `prototype_insert_foreign_record`   extension records inside a prototype are
        reported as Unknown{prefix, local name} whatever their local name and leave the other records unchanged
- * delimiting witnesses: `textOf_shadowed_by_leading_element` (an element inserted in front of a leaf's
-       text hides the text — roxmltree's `text()`), `nonforeign_shadows` (a non-foreign look-alike does shadow)
+ * witnesses: `textOf_not_shadowed_by_leading_element` (a foreign element in front of, or in the middle of,
+       a leaf's text changes nothing; replaces `textOf_shadowed_by_leading_element`, which documented the old
+       `text()` and is false now), `nonforeign_shadows` (a non-foreign look-alike does shadow);
+       foreign TEXT cannot be inserted: text has no namespace
 The XML text → tree step is roxmltree's (external); the `foreign` suite performs the insertions on real files.
 -/
 import E57.Proofs.Foreign
